@@ -111,6 +111,28 @@ def list_build(P, body):
     return lb
 
 
+def with_callables(P, body):
+    """body, the closures it creates and the workspace functions it hands to a higher-order call as a value
+    (`.map(Self::entry)` runs `entry` exactly as `.map(|p| Self::entry(p))` would), transitively"""
+    out = [body]
+    k = 0
+    while k < len(out):
+        cur = out[k]
+        for _, _, s in cur.iter_stmts():
+            if s["k"] == "assign" and s["r"]["k"] == "agg" and s["r"].get("ak") == "closure":
+                cb = P.bodies.get(s["r"]["path"])
+                if cb is not None and cb not in out:
+                    out.append(cb)
+        for _, t in cur.calls():
+            for a in t["args"]:
+                if "k" in a:
+                    cv = T.const_value(a["k"])
+                    if isinstance(cv[1], tuple) and cv[1] and cv[1][0] == "fn" and cv[1][1] in P.bodies and P.bodies[cv[1][1]] not in out:
+                        out.append(P.bodies[cv[1][1]])
+        k += 1
+    return out
+
+
 def with_closures(P, body):
     """body and the closures created (transitively) inside it (including those of helpers inlined into it)"""
     out = [body]
